@@ -213,15 +213,15 @@ def run(ctx):
 
 
 def categorize(x):
-    want = x["want"][0]
     got = x["got"]
+    want = min(x["want"], key=lambda w: len(flat_diff(w, got)))   # the closest of the alternatives the property leaves open
     wv4, gv4 = want["resp"]["v4"], got["resp"]["v4"]
     t = x["req"]["t"]
     if wv4.startswith("sub:") and gv4.startswith("sub:") and wv4 != gv4:
         return ("weighted-choice:%s" % t,
                 "weighted choice of the override subnet: draw %d of %d (configuration %r, %s) must select %s, the real registrar "
                 "substituted from %s" % (x["u"], x["total"], x["cfg"]["subs"], t, wv4[4:], gv4[4:]))
-    diff = x.get("diff") or flat_diff(want, got)
+    diff = flat_diff(want, got)
     tops = sorted(set(".".join(d.split(".")[:2]) if d.startswith("fwd") or d.startswith("sv") else d.split(".")[0] + "." + d.split(".")[1]
                       for d in diff))
     return ("row:%s" % "+".join(tops),
